@@ -40,6 +40,7 @@ func dagSpecFromCase(cs CaseSpec) DagSpec {
 	if l := int(cs.I("liars", 0)); l > 0 {
 		sp.Liars = l
 	}
+	sp.FastClocks = int(cs.I("fastclocks", 0))
 	return sp
 }
 
@@ -217,6 +218,35 @@ func runC03(cs CaseSpec) *CaseResult {
 	if ref.Err != nil {
 		res.inconclusive(fmt.Sprintf("reference execution failed: %v", ref.Err))
 		return res
+	}
+	if !ordersOnly {
+		// the time of a block is part of the output: by definition the median of
+		// the times its round's famous witnesses claim, whatever the clock of the
+		// machine that runs consensus says
+		for _, b := range ref.RawBlocks {
+			ri, err := ref.Store.GetRound(b.RoundReceived())
+			if err != nil {
+				continue
+			}
+			var all []int64
+			for _, w := range ri.FamousWitnesses() {
+				de := d.ByHash[w]
+				if de == nil {
+					all = nil
+					break
+				}
+				all = append(all, de.Body.Timestamp)
+			}
+			res.count("dag_block_times_compared_with_the_dag", 1)
+			if sp.FastClocks > 0 {
+				res.count("dag_block_times_with_creator_clocks_ahead_of_the_local_clock", 1)
+			}
+			if sig, msg := checkTimestamp(b.Timestamp(), all, nil, 0, d.N); sig != "" {
+				res.violate("C03", "C03:block-time-not-determined-by-the-dag", fmt.Sprintf("block %d (round-received %d): %s; creator clocks mode %d (1: all ahead of the local clock, 2: half of them)", b.Index(), b.RoundReceived(), msg, sp.FastClocks),
+					map[string]interface{}{"n": d.N, "famous_witness_times": all, "block_timestamp": b.Timestamp(), "local_unix_time": time.Now().Unix()})
+				return res
+			}
+		}
 	}
 	res.count("dag_events", int64(len(d.Events)))
 	res.count("dag_reference_blocks", int64(len(ref.Blocks)))
@@ -437,6 +467,11 @@ func init() {
 					cs[i].P["n"] = []int64{7, 8, 10, 7}[(i/8)%4]
 					cs[i].P["events"] = int64(180 + (i*17)%150)
 					continue
+				}
+				if i%8 == 2 || i%8 == 4 {
+					// creator clocks decades ahead of the clock of the machine that runs
+					// consensus (all of them / half of them)
+					cs[i].P["fastclocks"] = int64(1 + (i%8)/4)
 				}
 				if i%4 == 3 {
 					// split-view DAGs searched for long fame elections (coin rounds)
